@@ -216,14 +216,40 @@ fn independence_run(i: usize, seed: u64) -> (Option<String>, Option<(String, Val
     for p in 2..n {
         acc = b.and(acc, b.input(p, 1));
     }
+    // enough AND gates for leaky-AND batches of 80+ positions (masks of that length collide with 2^-80)
+    for k in 0..16 {
+        let x = b.xor(acc, b.input(k % n, 0));
+        acc = b.and(x, b.input((k + 1) % n, 1));
+    }
     let c = b.finish(vec![acc]);
     let inp: Vec<Vec<bool>> = (0..n).map(|_| vec![rng.random(), rng.random()]).collect();
     let p_eval = i % n;
-    let case = Case::new(c, inp, p_eval, (0..n).collect());
+    let mut case = Case::new(c, inp, p_eval, (0..n).collect());
+    case.record_probes = true;
     let ex = exec_mpc(case);
     let key = format!("independence|n={n}|E={p_eval}");
     if ex.end != RunEnd::AllFinished || !ex.outcomes.iter().all(|o| matches!(o, Outcome::Done(Ok(_)))) {
         return (Some(format!("honest run failed: {:?}", ex.end)), None, 0, key);
+    }
+    // the party's own leaky-AND masks (probe): drawn independently per receiver
+    for p in 0..n {
+        let mut per_recv: std::collections::HashMap<usize, Vec<&Vec<u8>>> = Default::default();
+        for r in ex.probes.iter().filter(|r| r.site == "fhaand.s" && r.party == Some(p)) {
+            per_recv.entry(r.index).or_default().push(&r.value);
+        }
+        let recvs: Vec<usize> = per_recv.keys().copied().collect();
+        for a in &recvs {
+            for bq in recvs.iter().filter(|x| *x > a) {
+                for (k, (va, vb)) in per_recv[a].iter().zip(&per_recv[bq]).enumerate() {
+                    if va.len() >= 64 && va == vb {
+                        return (None, Some((
+                            "a party uses the same leaky-AND mask bits towards two different peers (its pairwise randomness is not independent per peer)".to_string(),
+                            json!({"party": p, "peer_a": a, "peer_b": bq, "haand_call": k, "mask_length": va.len(), "n": n}),
+                        )), 0, key);
+                    }
+                }
+            }
+        }
     }
     let mut blocks = 0;
     for p in 0..n {
@@ -707,7 +733,7 @@ pub fn run(tier: &str, seed: u64) -> i32 {
     let mut rep = Report::new("C06", tier, seed, "exploration");
     let n_per = if thorough { 2048 } else { 256 };
     let (lo, hi) = (n_per * 48 / 256, n_per * 208 / 256);
-    rep.rule = format!("(1) balance: for the evaluator and a garbler (n=2), {n_per} executions with all own inputs 0 and {n_per} with all 1; per input wire the party's own mask share, recovered from the transcript only as masked_input ^ input ^ XOR of the others' shares, must be 1 in [{lo}, {hi}] of the executions. (2) canary: 128 random input bits must not occur in any message the party sends as packed bit run (either bit order), bool-byte run, decoded-bool run, nor complemented; the same for its own share vector. (3) freshness: all global keys (probe) and all 128-bit own-share vectors over all executions pairwise distinct. (5) per-peer independence: in 3- and 4-party runs no random-looking 16-byte block of a party's pairwise (non-broadcast) traffic to one peer occurs in its traffic to another peer. (4) disclosure: over 128+ executions with random inputs (3-AND circuit and a 1000-AND circuit whose preprocessing batches are full) no bit-valued field at a fixed position of the party's traffic (decoded bools, opened aShare check bits) agrees or disagrees with its own mask share of an input wire, or with the input bit, in more than 7/8 of the executions. (6) exact disclosure: over 64 executions with random inputs of a party with 9300 and 12345 input wires (aBit batches longer than 1024; thorough: also 1500, 9217, 10241, 18500 and 25000; both roles) no bit at any fixed position of the party's raw traffic (every byte of every message, incl. the packed OT-extension columns) equals or complements its own mask share of an input wire, or the input bit, in all 64 executions (chance match probability below 1e-6 per run). (7) observer model: in honest executions of tiny circuits (1-3 input bits per party, 0-3 or 30+ AND gates, n = 2 or 3) the GF(2) system a single peer can set up from its own view (public aBit check vectors expanded from the opened coin-toss seed, the party's opened parities, opened aShare check bits, shares sent to the observer) must not determine any linear relation among the party's own mask shares of its input wires; the model is validated per execution against the probed bit string (every parity equation must hold). distinct = (role, input value, wire) cells of the balance test plus canary configurations (n, party, evaluator); non-trivial = the cell was filled from decoded transcripts");
+    rep.rule = format!("(1) balance: for the evaluator and a garbler (n=2), {n_per} executions with all own inputs 0 and {n_per} with all 1; per input wire the party's own mask share, recovered from the transcript only as masked_input ^ input ^ XOR of the others' shares, must be 1 in [{lo}, {hi}] of the executions. (2) canary: 128 random input bits must not occur in any message the party sends as packed bit run (either bit order), bool-byte run, decoded-bool run, nor complemented; the same for its own share vector. (3) freshness: all global keys (probe) and all 128-bit own-share vectors over all executions pairwise distinct. (5) per-peer independence: in 3- and 4-party runs no random-looking 16-byte block of a party's pairwise (non-broadcast) traffic to one peer occurs in its traffic to another peer, and (probe fhaand.s) its leaky-AND mask vectors of 64+ bits towards two peers differ. (4) disclosure: over 128+ executions with random inputs (3-AND circuit and a 1000-AND circuit whose preprocessing batches are full) no bit-valued field at a fixed position of the party's traffic (decoded bools, opened aShare check bits) agrees or disagrees with its own mask share of an input wire, or with the input bit, in more than 7/8 of the executions. (6) exact disclosure: over 64 executions with random inputs of a party with 9300 and 12345 input wires (aBit batches longer than 1024; thorough: also 1500, 9217, 10241, 18500 and 25000; both roles) no bit at any fixed position of the party's raw traffic (every byte of every message, incl. the packed OT-extension columns) equals or complements its own mask share of an input wire, or the input bit, in all 64 executions (chance match probability below 1e-6 per run). (7) observer model: in honest executions of tiny circuits (1-3 input bits per party, 0-3 or 30+ AND gates, n = 2 or 3) the GF(2) system a single peer can set up from its own view (public aBit check vectors expanded from the opened coin-toss seed, the party's opened parities, opened aShare check bits, shares sent to the observer) must not determine any linear relation among the party's own mask shares of its input wires; the model is validated per execution against the probed bit string (every parity equation must hold). distinct = (role, input value, wire) cells of the balance test plus canary configurations (n, party, evaluator); non-trivial = the cell was filled from decoded transcripts");
     rep.assumptions = vec![format!("fixed thresholds: honest false-alarm probability below 1e-20 per wire at N={n_per}; biases smaller than the thresholds and computational distinguishers are not detected")];
     // (1)
     let total = 2 * 2 * n_per;
